@@ -107,3 +107,7 @@ def classify_c07(what, v):
             return "A8/bool-array-index-in-padding-bits-not-rejected"
         return "A8/array-index-past-the-end-not-rejected"
     return None
+
+
+def classify_c09(what, v):
+    return None
